@@ -3,6 +3,7 @@ package main
 import (
 	"fmt"
 	"go/types"
+	"os"
 	"strings"
 
 	"golang.org/x/tools/go/ssa"
@@ -59,7 +60,7 @@ func c12R1(c *Ctx, r *Report, rule string) {
 	sc := &Scenario{Name: "flow", Params: map[string]SV{"recv": symRef("h", false), "p0": symRef("cx", false), "p1": symRef("next", false)}}
 	sc.Call = func(callee string, args []SV, ev *symEval, st *symState) (SV, bool) {
 		switch {
-		case strings.HasPrefix(callee, "go.uber.org/zap"), strings.HasPrefix(callee, "(*go.uber.org/zap"), strings.Contains(callee, "Addr"):
+		case strings.HasPrefix(callee, "go.uber.org/zap"), strings.HasPrefix(callee, "(*go.uber.org/zap"), strings.Contains(callee, "Addr") && !strings.HasPrefix(callee, "modules/"):
 			return symOpaque(shortCallee(callee)), true
 		case callee == "fmt.Errorf":
 			d := ""
@@ -121,6 +122,9 @@ func c12R1(c *Ctx, r *Report, rule string) {
 	}
 	seen := map[string][]string{}
 	for _, p := range paths {
+		if os.Getenv("L4DEBUG") == "c12" {
+			fmt.Println("DBGC12", p.Outcome, p.retDesc(), "|", fmtTrace(p))
+		}
 		kind, hdr := "", ""
 		var next []string
 		var setvars []Event
@@ -201,7 +205,31 @@ func c12R4(c *Ctx, r *Report, rule string) {
 	}
 	field := ""
 	got := map[int64]string{}
-	for _, b := range fn.Blocks {
+	// Provision and the helpers of its package it calls synchronously and whose error it returns
+	scanFns := []*ssa.Function{fn}
+	for g := range c.reachSync(fn) {
+		if g == fn || g.Pkg != fn.Pkg || g.Parent() != nil || g.Signature.Results().Len() != 1 || typeStr(g.Signature.Results().At(0).Type()) != "error" {
+			continue
+		}
+		handedUp := false
+		for _, ret := range returnsOf(fn) {
+			if len(ret.Results) == 1 {
+				for _, o := range origins(ret.Results[0], sliceOpts{}) {
+					if o.Kind == "call" && o.Desc == fname(g) {
+						handedUp = true
+					}
+				}
+			}
+		}
+		if handedUp {
+			scanFns = append(scanFns, g)
+		}
+	}
+	var scanBlocks []*ssa.BasicBlock
+	for _, g := range scanFns {
+		scanBlocks = append(scanBlocks, g.Blocks...)
+	}
+	for _, b := range scanBlocks {
 		for _, in := range b.Instrs {
 			st, ok := in.(*ssa.Store)
 			if !ok {
@@ -272,7 +300,11 @@ func c12R4(c *Ctx, r *Report, rule string) {
 	}
 	// anything else rejected: evaluate Provision's tail? structural: an error return dominated by (resolved != "")
 	rejects := false
-	for _, ret := range returnsOf(fn) {
+	var rets []*ssa.Return
+	for _, g := range scanFns {
+		rets = append(rets, returnsOf(g)...)
+	}
+	for _, ret := range rets {
 		if len(ret.Results) == 1 {
 			for _, cd := range edgeConds(ret.Block()) {
 				// s != "" taken, or s == "" not taken (the default arm of a switch over the resolved option)
